@@ -1,3 +1,14 @@
 pub(crate) trait OrderedAtomIndexes {
     fn ordered(&self) -> Vec<usize>;
 }
+
+/// The items of a set sorted by their `ordered()` atom indices: an iteration order that does not depend on
+/// the hash seed, so that anything built from it (e.g. the energy terms, whose sum is rounded in list
+/// order) is the same from one run to the next
+pub(crate) fn in_canonical_order<'a, T: OrderedAtomIndexes + 'a>(
+    items: impl IntoIterator<Item = &'a T>,
+) -> Vec<&'a T> {
+    let mut sorted: Vec<&T> = items.into_iter().collect();
+    sorted.sort_by_key(|item| item.ordered());
+    sorted
+}
